@@ -59,7 +59,7 @@ InitHG(genesis, me) ==
     [ me      |-> me,
       ins     |-> << >>,                          \* insertion (topological) order
       E       |-> EmptyFun,                       \* per-event computed values
-      pe      |-> [ c \in Creators |-> EmptyFun ],\* per-creator index -> event
+      pe      |-> Strict([ c \in Creators |-> EmptyFun ]),\* per-creator index -> event
       R       |-> EmptyFun,                       \* rounds
       lastRound |-> -1,
       pend    |-> EmptyFun,                       \* pending round -> decided?
@@ -70,7 +70,7 @@ InitHG(genesis, me) ==
       blocks  |-> EmptyFun,
       lastBlock |-> -1,
       frames  |-> EmptyFun,
-      lce     |-> [ c \in Creators |-> NoEv ],    \* last consensus event per creator
+      lce     |-> Strict([ c \in Creators |-> NoEv ]),    \* last consensus event per creator
       sigpool |-> {},
       anchor  |-> -1,
       loaded  |-> 0,                              \* PendingLoadedEvents
@@ -127,12 +127,12 @@ InitLA(D, h, e) ==
         op == D[e].op
         spk == sp # NoEv /\ Known(h, sp)
         opk == op # NoEv /\ Known(h, op)
-        base == [ c \in Creators |->
+        base == Strict([ c \in Creators |->
                     MaxI(IF spk THEN h.E[sp].la[c] ELSE -1,
-                        IF opk THEN h.E[op].la[c] ELSE -1) ]
+                        IF opk THEN h.E[op].la[c] ELSE -1) ])
     IN  [ base EXCEPT ![D[e].c] = D[e].i ]
 
-InitFD(D, e) == [ c \in Creators |-> IF c = D[e].c THEN D[e].i ELSE INF ]
+InitFD(D, e) == Strict([ c \in Creators |-> IF c = D[e].c THEN D[e].i ELSE INF ])
 
 \* updateAncestorFirstDescendant: walk down the self-parent chain of one
 \* last-ancestor, stop at an entry already set or just after a witness.
@@ -251,7 +251,7 @@ DivideRounds(D, h) == DivideSeq(D, h, h.undet)
 VoteRound(D, h, x, r, j, prev) ==
     LET Wj == Witnesses(h.R[j]) IN
     IF j = r + 1
-    THEN [ votes |-> [ y \in Wj |-> See(D, h.E, y, x) ], dec |-> "U" ]
+    THEN [ votes |-> Strict([ y \in Wj |-> See(D, h.E, y, x) ]), dec |-> "U" ]
     ELSE
     LET Pp  == Members(h, j - 1)
         Wp  == Witnesses(h.R[j - 1])
@@ -263,7 +263,7 @@ VoteRound(D, h, x, r, j, prev) ==
         sm  == SMAt(h, j)
         normal == (j - r) % CoinFreq # 0
         deciders == IF normal THEN { y \in Wj : t(y) >= sm } ELSE {}
-    IN  [ votes |-> [ y \in Wj |-> IF normal \/ t(y) >= sm THEN v(y) ELSE D[y].mid ],
+    IN  [ votes |-> Strict([ y \in Wj |-> IF normal \/ t(y) >= sm THEN v(y) ELSE D[y].mid ]),
           dec   |-> IF deciders = {} THEN "U"
                     ELSE IF \A y \in deciders : v(y) THEN "T"
                     ELSE IF \A y \in deciders : ~v(y) THEN "F"
@@ -280,12 +280,12 @@ FameOf(D, h, x, r) == FameLoop(D, h, x, r, r + 1, EmptyFun)
 DecideFameRound(D, h, r) ==
     LET Ri == h.R[r]
         und == { x \in Witnesses(Ri) : Ri.ev[x].f = "U" }
-        res == [ x \in und |-> FameOf(D, h, x, r) ]
+        res == Strict([ x \in und |-> FameOf(D, h, x, r) ])
         amb == \E x \in und : res[x] = "A"
-        ev1 == [ x \in DOMAIN Ri.ev |->
+        ev1 == Strict([ x \in DOMAIN Ri.ev |->
                    IF x \in und /\ res[x] # "U"
                    THEN [ Ri.ev[x] EXCEPT !.f = IF res[x] = "F" THEN "F" ELSE "T" ]
-                   ELSE Ri.ev[x] ]
+                   ELSE Ri.ev[x] ])
         Ri1 == [ Ri EXCEPT !.ev = ev1 ]
         dec == RoundDecided(Ri1, Cardinality(Members(h, r)))
         Ri2 == [ Ri1 EXCEPT !.dec = dec ]
@@ -355,21 +355,21 @@ GetFrame(D, h, r) ==
         cs  == { D[evs[k]].c : k \in DOMAIN evs }
         first(p) == evs[CHOOSE k \in DOMAIN evs : D[evs[k]].c = p /\ \A m \in 1..(k-1) : D[evs[m]].c # p]
         others == { p \in Repertoire(h) \ cs : FirstRoundOf(h, p) <= r }
-        roots == [ p \in cs \cup others |->
+        roots == Strict([ p \in cs \cup others |->
                      IF p \in cs THEN CreateRoot(D, h, p, D[first(p)].sp)
-                     ELSE CreateRoot(D, h, p, h.lce[p]) ]
+                     ELSE CreateRoot(D, h, p, h.lce[p]) ])
         fws == FamousOf(h.R[r])
     IN  [ round |-> r, peers |-> PSAt(h, r), roots |-> roots, evs |-> evs,
           psets |-> h.ps, fws |-> fws,
           tss |-> SetToSortSeq({ << D[w].ts, w >> : w \in fws },
                                LAMBDA a, b : a[1] < b[1] \/ (a[1] = b[1] /\ a[2] # b[2] /\ FrameLess(D, h.E, a[2], b[2]))) ]
 
-FrameTimestamps(f) == [ k \in DOMAIN f.tss |-> f.tss[k][1] ]
+FrameTimestamps(f) == Strict([ k \in DOMAIN f.tss |-> f.tss[k][1] ])
 
 BlockOfFrame(D, idx, f) ==
     [ idx |-> idx, rr |-> f.round, evs |-> f.evs,
-      txs  |-> Flatten([ k \in DOMAIN f.evs |-> D[f.evs[k]].txs ]),
-      itxs |-> Flatten([ k \in DOMAIN f.evs |-> D[f.evs[k]].itxs ]),
+      txs  |-> Flatten(Strict([ k \in DOMAIN f.evs |-> D[f.evs[k]].txs ])),
+      itxs |-> Flatten(Strict([ k \in DOMAIN f.evs |-> D[f.evs[k]].itxs ])),
       rcpt |-> << >>,
       ts   |-> Median(FrameTimestamps(f)),
       peers |-> f.peers, fws |-> f.fws, sigs |-> {} ]
@@ -388,7 +388,7 @@ ApplyReceipts(vals, itxs) ==
 \* core.commit with a deterministic application
 CoreCommit(D, h, b) ==
     LET member == h.me \in Members(h, b.rr)
-        b1 == [ b EXCEPT !.rcpt = [ k \in DOMAIN b.itxs |-> b.itxs[k].ok ],
+        b1 == [ b EXCEPT !.rcpt = Strict([ k \in DOMAIN b.itxs |-> b.itxs[k].ok ]),
                          !.sigs = IF member THEN { h.me } ELSE {} ]
         n  == Cardinality(Members(h, b.rr))
         anchor1 == IF Cardinality(b1.sigs) > TrustCount(n) /\ (h.anchor = -1 \/ b.idx > h.anchor)
@@ -425,7 +425,7 @@ ProcessRound(D, h, r) ==
         b  == BlockOfFrame(D, h1.lastBlock + 1, f)
         h2 == IF f.evs # << >> /\ (b.txs # << >> \/ b.itxs # << >>)
               THEN CoreCommit(D, h1, b) ELSE h1
-    IN  [ h2 EXCEPT !.pend = [ x \in (DOMAIN @) \ {r} |-> @[x] ],
+    IN  [ h2 EXCEPT !.pend = Without(@, r),
                     !.lcr = MaxI(@, r) ]
 
 RECURSIVE ProcessDecidedRounds(_, _)
